@@ -221,6 +221,10 @@ class Executor:
             if isinstance(t, Opt):
                 inner = self.coerce(v, t.elt, st)
                 return Val(t, t.some(inner.z))
+        if isinstance(v, BoundMethod) and isinstance(t, Fun) and isinstance(v.recv, Val):
+            # a bound method stored as a provider: identified by (method name, receiver)
+            f = z3.Function(f"bm_{v.name}", v.recv.z.sort(), z3.IntSort())
+            return Val(t, f(v.recv.z))
         if isinstance(v, PyConst) and isinstance(v.v, str) and t == Str:
             return Val(Str, z3.StringVal(v.v))
         raise Untranslatable(f"cannot coerce {v!r} to {t}")
@@ -877,7 +881,7 @@ class Executor:
                     return z3.BoolVal(True)
                 if l.t.mutable and not identity:
                     if isinstance(l.t, Obj):
-                        return l.z == r.z if identity else self.obj_eq(l, r, st)
+                        return l.z == r.z if (identity or self.spec) else self.obj_eq(l, r, st)
                     return self.container_eq(l, r, st)
                 return l.z == r.z
             if l.t == NoneT and isinstance(r.t, Opt):
@@ -1096,6 +1100,12 @@ class Executor:
             if isinstance(t, Opt):
                 inner = self.coerce(base, t.elt, st)
                 return self.index(inner, idx, st, node)
+            if isinstance(t, Opaque) and (t.nm, "__getitem__") in self.reg.opaque_methods:
+                ats, rt = self.reg.opaque_methods[(t.nm, "__getitem__")]
+                k = self.coerce(self.guess_tuple(self.iter_value(idx, st), st) if not isinstance(idx, View)
+                                else self.materialise(idx, st, ats[0].elt), ats[0], st)
+                f = z3.Function(f"meth_{t.nm}___getitem__", t.sort(), ats[0].sort(), rt.sort())
+                return Val(rt, f(base.z, k.z))
         raise Untranslatable(f"subscript of {base!r}")
 
     # -- comprehensions
@@ -1215,10 +1225,18 @@ class Executor:
         for x in ast.walk(e.elt):
             if isinstance(x, ast.Name) and x.id not in tnames and x.id not in self.PURE_FUNCS:
                 v = st.env.get(x.id, st.ghost.get(x.id))
-                if not (isinstance(v, Val) and not v.t.mutable and v.t != NoneT):
+                if not (isinstance(v, Val) and v.t != NoneT and not isinstance(v.t, Obj)):
                     return None
                 if x.id not in [c[0] for c in caps]:
                     caps.append((x.id, v))
+                    if isinstance(v.t, Dict):       # the map also depends on the current contents
+                        caps.append((x.id + "$dom", Val(Int, self.dom(st, v))))
+                        caps.append((x.id + "$val", Val(Int, self.dvals(st, v))))
+                    elif isinstance(v.t, List):
+                        caps.append((x.id + "$arr", Val(Int, self.list_arr(st, v))))
+                        caps.append((x.id + "$len", Val(Int, self.list_len(st, v))))
+                    elif isinstance(v.t, Set):
+                        caps.append((x.id + "$dom", Val(Int, self.dom(st, v))))
             if isinstance(x, ast.Call):
                 f = x.func
                 ok = (isinstance(f, ast.Name) and f.id in self.PURE_FUNCS) or \
@@ -1226,6 +1244,8 @@ class Executor:
                 if not ok:
                     return None
             if isinstance(x, (ast.Attribute,)) and not (isinstance(x.value, ast.Name) and x.value.id in tnames):
+                return None
+            if isinstance(x, ast.Subscript) and isinstance(x.ctx, ast.Store):
                 return None
             if isinstance(x, (ast.Lambda, ast.GeneratorExp, ast.ListComp, ast.Yield, ast.Await)):
                 return None
